@@ -3,10 +3,13 @@
 package client
 
 import (
+	"bufio"
 	"context"
 	"fmt"
 	"net"
+	"strings"
 	"sync"
+	"sync/atomic"
 	"testing"
 	"time"
 
@@ -211,5 +214,247 @@ func TestVerifC17MappingLimitUpdate(t *testing.T) {
 				}
 			}
 		}
+	}
+}
+
+// ---------------------------------------------------------------------------
+// limit inherited from the user quota, quota cache cold, burst during the quota fetch
+// ---------------------------------------------------------------------------
+
+// c17QuotaServer is the server address of the client: connections that start with an HTTP
+// request line are the Management API (GET .../quota is answered with max_connections=U,
+// but only once the gate is open); everything else is a tunnel dial and is held unanswered.
+type c17QuotaServer struct {
+	l            net.Listener
+	userMax      int
+	gate         chan struct{}
+	gateOnce     sync.Once
+	quotaPending atomic.Int32 // quota requests received and not yet answered
+	quotaSeen    atomic.Int32
+	tunnelDials  atomic.Int32
+	progress     atomic.Int64
+	event        chan struct{}
+	mu           sync.Mutex
+	held         []net.Conn
+}
+
+func c17NewQuotaServer(userMax int) (*c17QuotaServer, error) {
+	l, err := net.Listen("tcp4", "127.0.0.1:0")
+	if err != nil {
+		return nil, err
+	}
+	q := &c17QuotaServer{l: l, userMax: userMax, gate: make(chan struct{}), event: make(chan struct{}, 1)}
+	q.progress.Store(time.Now().UnixNano())
+	go func() {
+		for {
+			c, err := l.Accept()
+			if err != nil {
+				return
+			}
+			q.mu.Lock()
+			q.held = append(q.held, c)
+			q.mu.Unlock()
+			go q.serve(c)
+		}
+	}()
+	return q, nil
+}
+
+func (q *c17QuotaServer) ping() {
+	q.progress.Store(time.Now().UnixNano())
+	select {
+	case q.event <- struct{}{}:
+	default:
+	}
+}
+
+func (q *c17QuotaServer) openGate() { q.gateOnce.Do(func() { close(q.gate) }) }
+
+func (q *c17QuotaServer) serve(c net.Conn) {
+	br := bufio.NewReader(c)
+	first, err := br.Peek(4)
+	if err != nil {
+		return
+	}
+	if string(first) != "GET " && string(first) != "POST" {
+		q.tunnelDials.Add(1) // a tunnel dial: this local connection was admitted; never answered
+		q.ping()
+		return
+	}
+	line, _ := br.ReadString('\n')
+	for { // rest of the header
+		h, err := br.ReadString('\n')
+		if err != nil || h == "\r\n" || h == "\n" {
+			break
+		}
+	}
+	body := `{"success":false}`
+	if strings.Contains(line, "/quota") {
+		q.quotaSeen.Add(1)
+		q.quotaPending.Add(1)
+		q.ping()
+		select {
+		case <-q.gate:
+		case <-time.After(3 * c17Watchdog):
+		}
+		q.quotaPending.Add(-1)
+		body = fmt.Sprintf(`{"success":true,"data":{"max_client_ids":10,"max_connections":%d}}`, q.userMax)
+	}
+	fmt.Fprintf(c, "HTTP/1.1 200 OK\r\nContent-Type: application/json\r\nContent-Length: %d\r\nConnection: close\r\n\r\n%s", len(body), body)
+	c.Close()
+}
+
+func (q *c17QuotaServer) close() {
+	q.openGate()
+	q.l.Close()
+	q.mu.Lock()
+	for _, c := range q.held {
+		c.Close()
+	}
+	q.mu.Unlock()
+}
+
+type c17InheritOutcome struct {
+	UserMax       int  `json:"user_quota_max_connections"`
+	Burst         int  `json:"burst"`
+	WarmCache     bool `json:"quota_cache_warm"`
+	QuotaInFlight int  `json:"quota_requests_in_flight_when_burst_resolved"`
+	DialsBefore   int  `json:"admitted_before_the_quota_answer"`
+	Admitted      int  `json:"admitted_simultaneously"`
+	Refused       int  `json:"refused"`
+	OpenedByStall bool `json:"gate_opened_by_stall"`
+}
+
+func c17InheritTrial(run *vk.Run, userMax, burst int, warm bool) {
+	srv, err := c17NewQuotaServer(userMax)
+	if err != nil {
+		run.Count("update_env_unavailable", 1)
+		return
+	}
+	defer srv.close()
+	port, err := c17FreePort()
+	if err != nil {
+		run.Count("update_env_unavailable", 1)
+		return
+	}
+	ctx, cancel := context.WithCancel(context.Background())
+	defer cancel()
+	cfg := &ClientConfig{ClientID: 12345678, SecretKey: "sk"}
+	cfg.Server.Address = srv.l.Addr().String()
+	cfg.Server.Protocol = "tcp"
+	c := NewClient(ctx, cfg)
+	out := c17InheritOutcome{UserMax: userMax, Burst: burst, WarmCache: warm}
+	run.Case("mapping-inherited-quota", out)
+	if warm {
+		srv.openGate()
+		if _, err := c.GetUserQuota(); err != nil {
+			run.Count("update_env_unavailable", 1)
+			return
+		}
+	}
+	c.handleConfigUpdate(fmt.Sprintf(
+		`{"mappings":[{"mapping_id":"pm-c17-inherit","secret_key":"k","protocol":"tcp","local_port":%d,`+
+			`"target_host":"127.0.0.1","target_port":9,"target_client_id":87654321,`+
+			`"bandwidth_limit":0,"max_connections":0,"enable_compression":true}]}`, port))
+	var locals []net.Conn
+	defer func() {
+		for _, l := range locals {
+			l.Close()
+		}
+		c.handleConfigUpdate(`{"mappings":[]}`)
+	}()
+	var refused atomic.Int32
+	addr := fmt.Sprintf("127.0.0.1:%d", port)
+	for i := 0; i < burst; i++ {
+		conn, err := net.DialTimeout("tcp4", addr, c17Watchdog)
+		if err != nil {
+			run.Count("update_local_dial_failed", 1)
+			return
+		}
+		locals = append(locals, conn)
+		go func() {
+			buf := make([]byte, 1)
+			for {
+				if _, err := conn.Read(buf); err != nil {
+					refused.Add(1)
+					srv.ping()
+					return
+				}
+			}
+		}()
+	}
+	// phase 1: every connection of the burst is accounted for: waiting for the quota answer,
+	// admitted (tunnel dialled) or refused; or nothing moves (callers queue behind one fetch)
+	began := time.Now()
+	for {
+		n := int(srv.quotaPending.Load()) + int(srv.tunnelDials.Load()) + int(refused.Load())
+		if n >= burst {
+			break
+		}
+		if time.Since(time.Unix(0, srv.progress.Load())) > 100*time.Millisecond {
+			out.OpenedByStall = true
+			break
+		}
+		if time.Since(began) > c17Watchdog {
+			run.Count("watchdog", 1)
+			return
+		}
+		select {
+		case <-srv.event:
+		case <-time.After(2 * time.Millisecond):
+		}
+	}
+	out.QuotaInFlight = int(srv.quotaPending.Load())
+	out.DialsBefore = int(srv.tunnelDials.Load())
+	srv.openGate()
+	// phase 2: every connection resolves as admitted or refused
+	began = time.Now()
+	for int(srv.tunnelDials.Load())+int(refused.Load()) < burst {
+		if time.Since(began) > c17Watchdog {
+			run.Count("watchdog", 1)
+			return
+		}
+		select {
+		case <-srv.event:
+		case <-time.After(2 * time.Millisecond):
+		}
+	}
+	out.Admitted, out.Refused = int(srv.tunnelDials.Load()), int(refused.Load())
+	run.Eval(1)
+	if !warm && out.QuotaInFlight >= 1 {
+		run.Count("inherit_trials_burst_resolved_during_cold_quota_fetch", 1)
+	}
+	if out.QuotaInFlight >= 2 {
+		run.Count("inherit_trials_2plus_quota_fetches_in_flight", 1)
+	}
+	if out.Refused > 0 {
+		run.Count("inherit_refusals_seen", int64(out.Refused))
+	}
+	run.Distinct(fmt.Sprintf("inherit|U%d|N%d|warm%v|inflight%d|adm%d", userMax, burst, warm, out.QuotaInFlight, out.Admitted))
+	run.Sample(out)
+	if out.Admitted > userMax {
+		run.Violation("C17:mapping-conn-limit|exceeded|inherited-user-quota", out)
+	}
+}
+
+func TestVerifC17MappingInheritedQuota(t *testing.T) {
+	vk.Quiet()
+	run := vk.Start(t, "C17", "mapping-inherited-quota")
+	defer run.Finish()
+	run.Rule("real TunnoxClient + real TCP mapping handler with max_connections=0 (limit inherited from the user quota U in {1,2,3} served by a Management API double on the client's server address); quota cache cold (or warm: control); " +
+		"a burst of U+3 local connections arrives while the API double withholds the quota answer; the answer is released once every connection is waiting for it, admitted or refused (or nothing moves for 100 ms). " +
+		"Admitted = a tunnel dial reaches the server (held unanswered), refused = closed by the handler. distinct = (U, burst, warm, quota fetches in flight, admitted)")
+	run.Floor("inherit_trials_burst_resolved_during_cold_quota_fetch", 4)
+	run.Floor("inherit_refusals_seen", 10)
+	reps := run.Pick(2, 10)
+	for rep := 0; rep < reps; rep++ {
+		for _, U := range []int{1, 2, 3} {
+			if run.Violations() < 20 {
+				c17InheritTrial(run, U, U+3, false)
+			}
+		}
+	}
+	for _, U := range []int{1, 2} {
+		c17InheritTrial(run, U, U+3, true)
 	}
 }
